@@ -79,6 +79,24 @@ pub fn gen_with(rng: &mut Rng, long: bool, clean_restarts: bool) -> Program {
         };
         ops.push(op);
     }
+    // a third of the histories contain the motif "persist, restart, change ONE key of what was loaded,
+    // incremental snapshot, restart": state that came from the loader must behave like state persisted by
+    // this process (nothing else is dirty, so only that key's record / partition is rewritten)
+    if rng.chance(1, 3) {
+        let db = rng.below(ndbs as u64) as usize;
+        let key = KEYS[rng.below(nkeys as u64) as usize].to_string();
+        let at = rng.below(ops.len() as u64 + 1) as usize;
+        let change = match rng.below(3) {
+            0 => Op::Remove { db, key: key.clone() },
+            1 => Op::Set { db, key: key.clone(), val: gen_value(rng, &mut uniq) },
+            _ => Op::Inc { db, key: key.clone(), by: rng.range(1, 5) as i32 },
+        };
+        let first = if rng.chance(1, 2) { Op::Set { db, key: key.clone(), val: gen_value(rng, &mut uniq) } } else { Op::Inc { db, key: key.clone(), by: 3 } };
+        let motif = vec![first, Op::Snapshot { db, reclaim: false }, Op::Restart, change, Op::Snapshot { db, reclaim: false }, Op::Restart];
+        for (j, m) in motif.into_iter().enumerate() {
+            ops.insert(at + j, m);
+        }
+    }
     // every history ends with a snapshot and a restart so that something is always checked
     let db = rng.below(ndbs as u64) as usize;
     ops.push(Op::Snapshot { db, reclaim: rng.chance(1, 3) });
